@@ -49,7 +49,7 @@ Magnitudes == {"1e89", "1e90", "1e100", "2p63m1", "2p63", "2p64", "1e19", "1e21"
 FiniteBig == {"1e89", "1e90", "1e100", "2p63m1", "2p63", "2p64", "1e19", "1e21", "1e22", "1e308", "max", "2p53p1"}
 NumContexts == {"plain", "string", "neg", "times10", "cmp", "floor", "round", "substring", "concat", "sum", "div", "pred", "strlen", "bool"}
 NumPatterns == 0..7
-NumFormats == 0..9
+NumFormats == 0..21
 LongXml == {"elementName", "attributeName", "piTarget", "prefix", "attributeValue", "nsUri", "entityName", "comment"}
 LongXsl == {"lreName", "variableName", "templateName", "modeName", "keyName", "elementAvt", "paramName", "attributeSetName", "piName", "lreAttr"}
 LongXPath == {"nameTest", "prefixTest", "variableRef", "literal", "attrTest", "piLiteral"}
